@@ -1,7 +1,7 @@
 (* C26 -- Temporary row ids resolve consistently within a bundle.
    Statements only; proofs are in Proofs/TempIds_proofs.v; the model is Model/TempIds.v (hand-written, compared
    with the real engine and with ActionSummary on every run by harness/props/c26.py).  Ids allocated by an add
-   are Model/RowIds.fill, which Props/C27.v proves equal to the loop translated from useractions.py.
+   are Model/RowIds.alloc, which Props/C27.v proves equal to the loops translated from useractions.py.
    "The bundle leaves no trace" after a rejection is the engine's rollback (C04): [run_bundle] returns PyErr and
    the check observes on the implementation that every table is unchanged. *)
 From Coq Require Import ZArith List Bool Lia.
